@@ -61,6 +61,31 @@ def _sym_and(lhs, rhs):
     return None
 
 
+def preinstall_codecs():
+    """X6b: pure-Python codecs (idna) build their result in a bytearray; under the tracer every bytearray is
+    symbolic and the codec machinery rejects the SymbolicBytes result with TypeError even for concrete input.
+    The codec entry points are wrapped before the first codec lookup (the registry caches bound methods): untraced
+    execution on realised input while tracing, the stock function otherwise."""
+    import encodings.idna as idna  # pylint: disable=import-outside-toplevel
+    from crosshair.tracers import is_tracing  # pylint: disable=import-outside-toplevel
+    if getattr(idna.Codec, '_chx_wrapped', False):
+        return
+
+    def wrap(stock):
+        def method(self, data, errors='strict'):
+            if is_tracing():
+                from crosshair.core import deep_realize  # pylint: disable=import-outside-toplevel
+                data, errors = deep_realize(data), deep_realize(errors)
+                with NoTracing():
+                    return stock(self, data, errors)
+            return stock(self, data, errors)
+        return method
+
+    idna.Codec.encode = wrap(idna.Codec.encode)
+    idna.Codec.decode = wrap(idna.Codec.decode)
+    idna.Codec._chx_wrapped = True  # pylint: disable=protected-access
+
+
 def install(invalid_value_stub=True):
     """idempotently install X1..X3"""
     global _installed  # pylint: disable=global-statement
@@ -129,6 +154,27 @@ def install(invalid_value_stub=True):
         return 'big'
 
     structlib._byteorder_for_int = _byteorder_for_int  # pylint: disable=protected-access
+
+    # X6: the pure-Python punycode codec, run under the tracer, hands a SymbolicBytes to the codec machinery, which
+    # rejects it with TypeError even for concrete input.  Run it untraced on realised input (a realisation is a
+    # fork on concrete values and keeps the search exhaustive).
+    import encodings.punycode as _punycode  # pylint: disable=import-outside-toplevel
+    from crosshair.core import deep_realize  # pylint: disable=import-outside-toplevel
+
+    stock_encode, stock_decode = _punycode.punycode_encode, _punycode.punycode_decode
+
+    def punycode_encode(text):
+        text = deep_realize(text)
+        with NoTracing():
+            return stock_encode(text)
+
+    def punycode_decode(text, errors):
+        text, errors = deep_realize(text), deep_realize(errors)
+        with NoTracing():
+            return stock_decode(text, errors)
+
+    _punycode.punycode_encode = punycode_encode
+    _punycode.punycode_decode = punycode_decode
 
     if invalid_value_stub:
         install_invalid_value_stub()
